@@ -1,6 +1,36 @@
 #!/bin/sh
 # usage: tools/check.sh <property> <tier>
+# quick:    generate and discharge every obligation of the property's claim (plus its stand-ins).
+# thorough: the same with every solver run to completion, smoke (vacuity) obligations after every contract
+#           call and at every loop head, and then the must-fail corpus of the property (hand-made mutants,
+#           reversed fix commits, confirmed seeded changes) against scratch copies of /repo: the number of
+#           mutants the check reports is recorded in the evidence file (coverage.mustfail_corpus). A missed
+#           mutant is a weakness of the machinery, not a violation of the property: it never changes the
+#           exit status.
 export GOFLAGS=-mod=mod GOPROXY=off GOSUMDB=off GOTOOLCHAIN=local
 cd /verif
 if [ ! -x bin/kv ]; then (cd engine && go build -o /verif/bin/kv ./cmd/kv) || exit 2; fi
-exec bin/kv check --property "$1" --tier "${2:-quick}"
+if [ "${2:-quick}" != "thorough" ] || [ "${KV_MUSTFAIL:-1}" = "0" ]; then
+  exec bin/kv check --property "$1" --tier "${2:-quick}"
+fi
+bin/kv check --property "$1" --tier thorough
+rc=$?
+out=$(KV_MUSTFAIL_MAX=${KV_MUSTFAIL_MAX:-12} selftest/run.sh "$1" 2>&1)
+python3 - "$1" <<PY
+import json,sys,re
+prop=sys.argv[1]
+out='''$out'''
+caught=[l.split()[1].rstrip(':') for l in out.splitlines() if l.startswith('caught')]
+missed=[l.split()[1] for l in out.splitlines() if l.startswith('MISSED')]
+errs=[l for l in out.splitlines() if l.startswith('SELFTEST-ERROR')]
+p='/verif/evidence/%s.json'%prop
+try:
+    d=json.load(open(p))
+    d['coverage']['mustfail_corpus']={'mutants_run':len(caught)+len(missed),'reported':len(caught),'missed':missed,'errors':errs,
+      'note':'hand-made mutants, reversed fix commits and confirmed seeded changes applied to scratch copies of /repo; each must be reported as a violation by this check'}
+    json.dump(d,open(p,'w'),indent=1)
+except Exception as e:
+    print('evidence update failed:',e)
+print('must-fail corpus %s: %d of %d mutants reported%s'%(prop,len(caught),len(caught)+len(missed),(' MISSED: '+' '.join(missed)) if missed else ''))
+PY
+exit $rc
